@@ -46,6 +46,21 @@ fn main() {
         s.push_str(&format!("            ({}, {}, {}, {}, {}, {}) => $run::<{}, {}>($($arg),*),\n", s1, n1, f1, s2, n2, f2, tyname(s1, n1, f1), tyname(s2, n2, f2)));
     } } } }
     s.push_str("            _ => \"SKIP\".to_string(),\n        }\n    };\n}\n");
+    // `From` / `LossyFrom` between fixed-point types exist only for admissible pairs (type-level bounds of convert.rs): instantiate exactly those
+    let adm_int = |s1: bool, n1: u32, f1: u32, s2: bool, n2: u32, f2: u32| -> bool {
+        if s1 == s2 { n1 - f1 <= n2 - f2 } else { !s1 && s2 && n1 - f1 + 1 <= n2 - f2 }
+    };
+    for (name, need_frac) in [("sfx_dispatch_from", true), ("sfx_dispatch_lossy", false)] {
+        s.push_str(&format!("macro_rules! {} {{\n    ($s1:expr, $n1:expr, $f1:expr, $s2:expr, $n2:expr, $f2:expr, $run:ident ( $($arg:expr),* )) => {{\n        match ($s1, $n1, $f1, $s2, $n2, $f2) {{\n", name));
+        for &(s1, n1) in &fam { for f1 in three(n1) { for &(s2, n2) in &fam { for f2 in three(n2) {
+            // `From` is only implemented for strictly wider destinations (convert! rows); `LossyFrom` for every width pair
+            let ok = adm_int(s1, n1, f1, s2, n2, f2) && (!need_frac || (f1 <= f2 && n1 < n2));
+            if ok {
+                s.push_str(&format!("            ({}, {}, {}, {}, {}, {}) => $run::<{}, {}>($($arg),*),\n", s1, n1, f1, s2, n2, f2, tyname(s1, n1, f1), tyname(s2, n2, f2)));
+            }
+        } } } }
+        s.push_str("            _ => \"SKIP\".to_string(),\n        }\n    };\n}\n");
+    }
     // small dispatch for integer conversions: fracs {0, 1, mid, n-1, n}
     s.push_str("macro_rules! sfx_dispatch_small {\n    ($s:expr, $n:expr, $f:expr, $run:ident ( $($arg:expr),* )) => {\n        match ($s, $n, $f) {\n");
     for &(s1, n1) in &fam { for f1 in [0, 1, if n1 == 8 { 3 } else { n1 / 2 - 1 }, n1 - 1, n1] {
